@@ -40,10 +40,10 @@ CHECKS = {
  "C10": (E1, "bounded exhaustive enumeration with a twin (relational oracle) plus reference model on the first segment",
          "All keyframe lists up to the bound x 13 timings x 3 start values x 64-per-cycle time grid: t<=delay => exactly v, beyond the second frame / reverse pass / later cycles / after end => bit-equal to the twin without start_with, first segment => reference blend from v.",
          "keyframe count bound; flags at pass boundaries pinned by C03", "DESIGN.md 3/C10"),
- "C11": (E1, "exhaustive enumeration of ALL permutations of insertion order (<=5 quick, <=6 thorough keyframes) against the ascending-order build",
+ "C11": (E1, "exhaustive enumeration of ALL permutations of insertion order (<=6 quick, <=8 thorough keyframes; a 1/8 grid and a sub-percent grid) against the ascending-order build",
          "Every subset of distinct positions from a 9-point grid x content patterns x every permutation; values and metadata must be bit-identical to the ascending build.",
          "relational; the ascending build is bound to the reference by C01", "DESIGN.md 3/C11"),
- "C12": (E1, "exhaustive enumeration of all lists of 0..3 (quick) / 0..4 (thorough) components from a pool of 10, relational overlay oracle + exact metadata arithmetic",
+ "C12": (E1, "exhaustive enumeration of all lists of 0..4 (quick) / 0..5 (thorough) components from a pool of 10 plus a metadata family over 135 stub components and nested merged timelines, relational overlay oracle + exact metadata arithmetic",
          "merged.update == components applied in order (bit-equal), start_with reaches all components, disjoint sets commute, delay=min, duration=max, repeat=largest, cycle only if all agree, wrap-single identity.",
          "pool of 10 component shapes", "DESIGN.md 3/C12"),
  "C13": (E1, "exhaustive sweep of the easing input axis (every 1024th f32 in [0,1] + endpoint neighbourhoods quick; all 1 065 353 217 f32 values thorough) x 29 easings",
